@@ -48,7 +48,17 @@ static std::string pbStr(const std::vector<ll> &u, const std::vector<ll> &v, con
   return "source_pos=" + vf::jarr(u) + " sink_pos=" + vf::jarr(v) + " supply=" + vf::jarr(s) + " demand=" + vf::jarr(d);
 }
 
+static bool checkOneImpl(const std::vector<ll> &u, const std::vector<ll> &v, const std::vector<ll> &s, const std::vector<ll> &d, CaseResult &r, bool &usedBalance);
 static bool checkOne(const std::vector<ll> &u, const std::vector<ll> &v, const std::vector<ll> &s, const std::vector<ll> &d, CaseResult &r, bool &usedBalance) {
+  try {
+    return checkOneImpl(u, v, s, d, r, usedBalance);
+  } catch (const std::exception &e) {
+    // total supply <= total demand holds here (balanceDemand was applied otherwise): the solver must return a plan
+    r.fail("C14:solver-threw-on-a-valid-instance", std::string(e.what()) + ": " + pbStr(u, v, s, d));
+    return false;
+  }
+}
+static bool checkOneImpl(const std::vector<ll> &u, const std::vector<ll> &v, const std::vector<ll> &s, const std::vector<ll> &d, CaseResult &r, bool &usedBalance) {
   int S = (int)u.size(), K = (int)v.size();
   ll ts = 0, td = 0;
   for (auto x : s) ts += x;
